@@ -17,6 +17,8 @@ type crashProgCfg struct {
 	WriteBias bool // C07: mostly writes of all stability levels, commits, a few metadata operations
 	MaxPoints int
 	NRand     int
+	// every EpochEvery-th image goes on serving and is crashed again at up to EpochPoints points of that second run
+	EpochEvery, EpochPoints int
 }
 
 func runCrashProperty(t *rapid.T, pc crashProgCfg) {
@@ -211,6 +213,9 @@ func runCrashProperty(t *rapid.T, pc crashProgCfg) {
 	n, fail := ExploreCrashes(cr.D, pts, salt, pc.NRand, func(img *Disk, c CrashCase) error {
 		h := Hash(progHash, c.K, c.VarIdx)
 		opts := ImageOpts{Suffix: h%16 == 0, Recrash: h%32 == 1, SuffixIfTruncatedData: true}
+		if h%uint64(pc.EpochEvery) == 2 {
+			opts.SecondEpoch = pc.EpochPoints
+		}
 		_, _, err := cr.CheckImage(img, c.K, opts)
 		if err != nil {
 			return err
@@ -268,17 +273,17 @@ func runCrashProperty(t *rapid.T, pc crashProgCfg) {
 }
 
 func TestC01Crash(t *testing.T) {
-	pc := crashProgCfg{Prop: "C01", MaxPoints: 300, NRand: 1}
+	pc := crashProgCfg{Prop: "C01", MaxPoints: 300, NRand: 1, EpochEvery: 48, EpochPoints: 40}
 	if Thorough() {
-		pc.MaxPoints, pc.NRand = 1<<30, 3
+		pc.MaxPoints, pc.NRand, pc.EpochEvery, pc.EpochPoints = 1<<30, 3, 64, 200
 	}
 	rapid.Check(t, func(t *rapid.T) { runCrashProperty(t, pc) })
 }
 
 func TestC07Crash(t *testing.T) {
-	pc := crashProgCfg{Prop: "C07", WriteBias: true, MaxPoints: 300, NRand: 1}
+	pc := crashProgCfg{Prop: "C07", WriteBias: true, MaxPoints: 300, NRand: 1, EpochEvery: 48, EpochPoints: 40}
 	if Thorough() {
-		pc.MaxPoints, pc.NRand = 1<<30, 3
+		pc.MaxPoints, pc.NRand, pc.EpochEvery, pc.EpochPoints = 1<<30, 3, 64, 200
 	}
 	rapid.Check(t, func(t *rapid.T) { runCrashProperty(t, pc) })
 }
